@@ -103,7 +103,6 @@ class _FakeEioBase:
         self.contained = []    # exceptions contained by _trigger (engine.io logs them)
         self.bg = []           # deferred background tasks
         self.bg_inline = True
-        self.sockets = {}
         self.logger = NULL_LOGGER
 
     def on(self, ev, h=None):
@@ -143,6 +142,30 @@ class _FakeEioBase:
     def shutdown(self):
         pass
 
+    # --- what the admin instrumentation touches ---------------------------------------------------------
+    def _ok(self, packets=None, headers=None, jsonp_index=None):
+        return {'status': '200 OK', 'headers': [], 'response': b''}
+
+    def _get_socket(self, eio_sid):
+        tr = self.t.get(eio_sid)
+        if tr is None or tr.state == 'closed':
+            raise KeyError('Session not found')
+        tr.upgraded = False
+        return tr
+
+    @property
+    def sockets(self):
+        return {k: v for k, v in self.t.items() if v.state != 'closed'}
+
+    @sockets.setter
+    def sockets(self, v):
+        pass
+
+
+def _is_timer_task(target):
+    # the admin UI's periodic statistics task (an endless sleep/emit loop driven by time): never scheduled here
+    return getattr(target, '__name__', '') == '_emit_server_stats'
+
 
 class FakeEio(_FakeEioBase):
     def send(self, eio_sid, data):
@@ -155,10 +178,13 @@ class FakeEio(_FakeEioBase):
             self._deliver(eio_sid, ('eio', pkt.packet_type, pkt.data))
 
     def start_background_task(self, target, *a, **kw):
+        if _is_timer_task(target):
+            return _DoneTask()
         if self.bg_inline:
             target(*a, **kw)
-            return None
+            return _DoneTask()
         self.bg.append((target, a, kw))
+        return _DoneTask()
 
     def run_bg(self):
         while self.bg:
@@ -221,6 +247,10 @@ class FakeAEio(_FakeEioBase):
 
     def start_background_task(self, target, *a, **kw):
         from . import miniloop
+        if _is_timer_task(target):
+            async def nothing():
+                return None
+            return miniloop.create_task(nothing())
         return miniloop.create_task(target(*a, **kw))
 
     def create_event(self):
